@@ -39,11 +39,12 @@ class VerifyRule(BaseRule):
         return None
 
     def getitem(self, it, st, node):
-        # slicing a host name keeps its provenance
-        if isinstance(node.slice, ast.Slice) and isinstance(node.value, ast.Name):
-            v = st.env.get(it.var(node.value.id))
-            if v is not None and v.kind == "unk":
-                return AV("unk", tags=v.tags, truth=v.truth, none=False)
+        # a slice / a piece (partition(...)[0], split(...)[0]) of a host name keeps its provenance
+        vals, _ = it.eval(st, node.value)
+        if len(vals) == 1:
+            v = vals[0][1]
+            if v.kind == "unk" and v.tags:
+                return AV("unk", tags=v.tags, truth=v.truth if isinstance(node.slice, ast.Slice) else None, none=False)
         return None
 
     def call(self, it, st, node, recv, pos, kw):
@@ -105,8 +106,8 @@ class VerifyRule(BaseRule):
             return ok(const(bool(pos[0].truth)) if pos[0].truth is not None else UNK)
         if t == "is_ipaddress":
             return ok(AV("unk", sym="is_ip"))
-        if isinstance(node.func, ast.Attribute) and node.func.attr in ("strip", "rstrip", "lstrip", "lower") and recv is not None:
-            return ok(AV("unk", tags=recv.tags, truth=recv.truth, none=False))
+        if isinstance(node.func, ast.Attribute) and node.func.attr in ("strip", "rstrip", "lstrip", "lower", "partition", "rpartition", "split", "rsplit", "removeprefix", "removesuffix", "casefold") and recv is not None:
+            return ok(AV("unk", tags=recv.tags, truth=recv.truth if node.func.attr in ("lower", "casefold") else None, none=False))
         if it.resolve_callee(node, recv) in it.inline:
             return None  # interpreted in place
         return ok()
